@@ -413,6 +413,7 @@ def run(ctx):
         "enum no later variant serialises to JSON an earlier variant accepts (required-field / JSON-kind argument), tagged enums have unique tags (S2); "
         "every column of the CSV import records is consumed (S4).")
     ctx.explanation += ' Optional-break job ids are consecutive (B1: counter zipped with the breaks after the optional filter, decided on iterator types); every window test of the activity matcher is inclusive (T1).'
+    ctx.explanation += ' The place of an activity is selected by location AND a touching window in one predicate (M1).'
     ctx.not_decided = "float text round trip, activity matching when a solution is re-read as initial solution, faithfulness of CSV values."
     ctx.assumptions += ["serde derive semantics for the listed attributes (trusted)", "types outside the three model files serialise opaquely (kind `any`)"]
     ctx.run("C11-S1", "document types: both derives, no one-sided attributes, symmetric renames, skip only for None options", s1_symmetry, floor=90)
